@@ -47,8 +47,8 @@ def rand_groups(rng, mask=None):
             gs.append(0)
         else:
             gs.append(rng.choice([1, 0xF, 0x10, 0xFF, 0x100, 0xFFF, 0x1000, 0xFFFF, 0xABCD]) if rng.chance(1, 2) else 1 + rng.below(65535))
-    if rng.chance(1, 30):
-        gs = [0, 0, 0, 0, 0, 0xFFFF, rng.below(65536), rng.below(65536)]
+    if rng.chance(1, 8):
+        gs = [0, 0, 0, 0, 0, 0xFFFF, rng.below(65536), rng.below(65536)]      # IPv4-mapped
     return gs
 
 
@@ -388,6 +388,8 @@ def multibyte_after_cr(tier, rng, k, n):
             yield ("v1-multibyte", hx(pre + b"\r" + c.encode()), {})
             yield ("v1-multibyte", hx(pre + b"\r" + c.encode() + b"\n"), {})
             yield ("v1-multibyte", hx(pre + c.encode() + b"\r\n"), {})
+            yield ("v1-multibyte", hx(pre + b"\r" + c.encode() + b"\r\n"), {})
+            yield ("v1-multibyte", hx(pre + b" x\r" + c.encode() + b" y\r\nz"), {})
     for total in range(100, 110):
         for c in chars:
             e = c.encode()
